@@ -67,6 +67,9 @@ func WaitRecv(ch interface{}) {
 	if !Active() {
 		return
 	}
+	// class "sync": a yield point BEFORE the operation is attempted (never between
+	// the readiness test below and the operation itself, which must not block)
+	Y(SiteSyncAcq)
 	v := reflect.ValueOf(ch)
 	p := v.Pointer()
 	if p != 0 && v.Cap() == 0 {
@@ -84,6 +87,7 @@ func WaitSend(ch interface{}) {
 	if !Active() {
 		return
 	}
+	Y(SiteSyncAcq)
 	v := reflect.ValueOf(ch)
 	if p := v.Pointer(); p != 0 && v.Cap() == 0 {
 		rendezvous(p, true)
@@ -224,7 +228,12 @@ func rendezvous(p uintptr, send bool) {
 //
 //go:norace
 func AfterChanOp(isSend bool) {
-	if !active || !rdvActive {
+	if !active {
+		return
+	}
+	if !rdvActive {
+		// class "sync": right after a completed channel operation
+		Y(SiteSyncRel)
 		return
 	}
 	if isSend == rdvPeerSend {
@@ -239,6 +248,7 @@ func AfterChanOp(isSend bool) {
 	for rdvActive {
 		runtime.Gosched()
 	}
+	Y(SiteSyncRel)
 }
 
 // Closed records that ch is about to be closed.
